@@ -1,0 +1,21 @@
+//go:build verif
+
+// Contracts for the gvc verifier (see /verif/DESIGN.md). Comment-only file: it adds no code.
+package signed
+
+//@ pred verifyok(k, msg, sig) := asn1ok(sig) && asn1rest(sig) == 0 && ecdsaok(k, sha256(msg), asn1R(sig), asn1S(sig))
+//@ pred signedok(k, m) := cborok(m) && verifyok(k, cbormsg(m), cborsig(m))
+
+//@ func Verify
+//@   property C10 C08
+//@   requires pk != nil
+//@   ensures good: err == nil ==> verifyok(ref(pk), bytes(bts), bytes(signature))
+//@   modifies nothing
+//@   mustfail canary: err != nil
+
+//@ func UnmarshalVerify
+//@   property C10 C08
+//@   requires pk != nil
+//@   ensures good: err == nil ==> signedok(ref(pk), bytes(signed))
+//@   modifies anyfields(dst)
+//@   mustfail canary: err != nil
